@@ -53,24 +53,17 @@ def handleC2k (din dout evl evc : String) : String := Id.run do
 
 
 /-- `choi_op_to_bloch_map` on a Gaussian-integer Choi operator, scalars = the binary64 square roots taken exactly;
-output `matA | vecb` as exact rationals (row-major) -/
+output `matA | vecb` as exact rationals (row-major).  Calls the model constants `blochA` / `blochB` (the subjects of
+`C12.bloch_map_affine`) entry by entry — no re-implementation. -/
 def handleBloch (din dout : Nat) (l : Array GInt) : String := Id.run do
   if l.size ≠ (din * dout) * (din * dout) || din = 0 || dout = 0 then return "bad-op"
   let Sin := floatScalars din
   let Sout := floatScalars dout
   let C : Nat → Nat → QI := fun x y => QI.ofGInt (l.getD (x * (din * dout) + y) 0)
-  -- tabulate tmp1[(a,b)] once (same lists as `blochTmp1`)
-  let tmp1 : Array (Array QI) := ((List.range (dout * dout)).map fun ab =>
-    (analysis Sin din (fun j i : Fin din => C (i.val * dout + ab / dout) (j.val * dout + ab % dout))).toArray).toArray
-  let T : Nat → Nat → Nat → QI := fun a b μ => (tmp1.getD (a * dout + b) #[]).getD μ 0
-  let X : Array (Array QI) := ((List.range (din * din)).map fun μ =>
-    (analysis Sout dout (fun a b : Fin dout => T a.val b.val μ)).toArray).toArray
-  let gm : Nat → Nat → QI := fun ν μ => re Sout ((X.getD μ #[]).getD ν 0)
-  let two : QI := 1 + 1
-  let matA := (List.range (dout * dout - 1)).flatMap fun ν => (List.range (din * din - 1)).map fun μ => gm ν μ * two
-  let vecb := (List.range (dout * dout - 1)).map fun ν => gm ν (din * din - 1) * Sin.cI
+  let matA := (List.range (dout * dout - 1)).flatMap fun ν => (List.range (din * din - 1)).map fun μ =>
+    blochA Sin Sout din dout C ν μ
+  let vecb := (List.range (dout * dout - 1)).map fun ν => blochB Sin Sout din dout C ν
   return s!"{qiListStr matA}|{qiListStr vecb}"
-
 
 /-- binary64 instance of the three analytic operations (libm `log`, IEEE `sqrt`, `np.maximum` on non-NaN input) -/
 instance : Analytic Float := ⟨Float.log, Float.sqrt, fun a b => if a < b then b else a⟩
